@@ -151,9 +151,10 @@ def run(ctx):
             continue
         k = rng.getrandbits(48)
         dab = rng.choice([0, 0, 0, 0.5, 1.0])     # non-standard but accepted: ring digits written after branches
-        s1, _, _, _ = spell(m, random.Random(k), variants=False, explicit_single=0.05, digits_after_branch=dab)
+        span = rng.choice(["dfs", "dfs", "random"])
+        s1, _, _, _ = spell(m, random.Random(k), variants=False, explicit_single=0.05, digits_after_branch=dab, spanning=span)
         s2, _, _, _ = spell(m, random.Random(k), variants=True, explicit_single=0.05, vrng=random.Random(k ^ 0x5DEECE66D),
-                            digits_after_branch=dab)
+                            digits_after_branch=dab, spanning=span)
         try:
             a1, a2 = read_smiles(s1), read_smiles(s2)
             same = (len(a1.atoms) == len(a2.atoms) and a1.bonds == a2.bonds and
